@@ -1,5 +1,1206 @@
-//! Builder machinery shared by C06 / C12 / C13 / C16 (generated call sites).
-use crate::engine::*;
+//! Builder machinery shared by C06 / C12 / C13 / C16: history interpreter with
+//! the reference model R4 (module under construction, id discipline, type
+//! dedup) driven through the generated call sites.
 
-pub const C16_SUBS: &[Sub] = &[];
-pub fn c16_run(_ctx: &Ctx) {}
+use crate::bcalls::*;
+use crate::cs::Cs;
+use crate::engine::*;
+use crate::golden::golden;
+use crate::model::show_inst;
+use crate::refclass::{self, layout, Layout};
+use crate::rs::*;
+use rspirv::binary::Assemble;
+use rspirv::dr::{self, Builder};
+use rspirv::grammar::OperandKind as K;
+
+pub struct Interp {
+    pub b: Option<Builder>,
+    pub model: dr::Module,
+    /// the next fresh id lies in [lo, lo + slack]
+    pub lo: u32,
+    pub slack: u32,
+    pub start: u32,
+    pub env: Env,
+    pub log: Vec<String>,
+    pub version: Option<(u8, u8)>,
+    pub ncalls: usize,
+    pub errors_seen: Vec<String>,
+    pub methods_called: Vec<&'static str>,
+    pub selection_calls: usize,
+    pub repeated_type_requests: usize,
+    pub failed_reserving: usize,
+    pub strict_ids: bool,
+}
+
+fn fail(clause: &str, disc: impl Into<String>, msg: impl Into<String>) -> Fail {
+    Fail::new(clause, disc, msg)
+}
+
+/// is this method's opcode a block terminator per the specification?
+pub fn closes_block(mm: &MethodMeta) -> bool {
+    mm.gi.map(|g| refclass::is_block_terminator(&g.opname)).unwrap_or(false)
+}
+
+impl Interp {
+    pub fn new() -> Interp {
+        Interp {
+            b: Some(Builder::new()),
+            model: dr::Module::new(),
+            lo: 1,
+            slack: 0,
+            start: 1,
+            env: Env::default(),
+            log: vec![],
+            version: None,
+            ncalls: 0,
+            errors_seen: vec![],
+            methods_called: vec![],
+            selection_calls: 0,
+            repeated_type_requests: 0,
+            failed_reserving: 0,
+            strict_ids: true,
+        }
+    }
+
+    /// Continue from an (empty) existing module with the given header bound.
+    pub fn from_bound(bound: u32) -> Result<Interp, Fail> {
+        let mut m = dr::Module::new();
+        m.header = Some(dr::ModuleHeader::new(bound));
+        let b = no_panic("Builder::new_from_module", || Builder::new_from_module(m))?;
+        let mut i = Interp::new();
+        i.b = Some(b);
+        i.lo = bound;
+        i.start = bound;
+        i.log.push(format!("new_from_module(bound={})", bound));
+        Ok(i)
+    }
+
+    pub fn render(&self) -> String {
+        self.log.join("\n")
+    }
+
+    fn wrap(&self, f: Fail) -> Fail {
+        f.with_decoded(self.render())
+    }
+
+    pub fn selection(&self) -> (Option<usize>, Option<usize>) {
+        let b = self.b.as_ref().unwrap();
+        (b.selected_function(), b.selected_block())
+    }
+
+    /// invariant: the selection designates an existing function and block or nothing
+    pub fn check_selection(&self, when: &str) -> R {
+        let b = self.b.as_ref().unwrap();
+        let (f, bl) = (b.selected_function(), b.selected_block());
+        let m = b.module_ref();
+        let ok = match (f, bl) {
+            (None, None) => true,
+            (None, Some(_)) => false,
+            (Some(f), None) => f < m.functions.len(),
+            (Some(f), Some(x)) => f < m.functions.len() && x < m.functions[f].blocks.len(),
+        };
+        if !ok {
+            let nf = m.functions.len();
+            let nb = f.and_then(|f| m.functions.get(f)).map(|f| f.blocks.len());
+            return Err(self.wrap(fail(
+                "selection-invariant",
+                format!("{}:{}", when.split('(').next().unwrap_or(""), match (f, bl) {
+                    (None, Some(_)) => "block-without-function",
+                    (Some(_), None) => "function-out-of-range",
+                    _ => "block-out-of-range",
+                }),
+                format!(
+                    "after {}: selected_function={:?} selected_block={:?} but the module has {} functions / {:?} blocks",
+                    when, f, bl, nf, nb
+                ),
+            )));
+        }
+        Ok(())
+    }
+
+    fn compare_module(&mut self, when: &str) -> R {
+        let actual = self.b.as_ref().unwrap().module_ref();
+        self.model.header = actual.header.clone();
+        if let Some(d) = module_diff(actual, &self.model) {
+            return Err(self.wrap(fail(
+                "module-effect",
+                when.split('(').next().unwrap_or("").to_string(),
+                format!("after {}: module under construction differs from the model: {}", when, d),
+            )));
+        }
+        Ok(())
+    }
+
+    fn note_fresh(&mut self, id: u32, what: &str) -> R {
+        let hi = self.lo as u64 + self.slack as u64;
+        if (id as u64) < self.lo as u64 || (id as u64) > hi {
+            return Err(self.wrap(fail(
+                "fresh-id",
+                what.split('(').next().unwrap_or("").to_string(),
+                format!(
+                    "{} returned fresh id {} but the next fresh id must lie in [{}, {}] (ids strictly increasing from {})",
+                    what, id, self.lo, hi, self.start
+                ),
+            )));
+        }
+        self.lo = id + 1;
+        self.slack = 0;
+        self.env.ids.push(id);
+        Ok(())
+    }
+
+    pub fn alloc_id(&mut self) -> Result<u32, Fail> {
+        let id = no_panic("Builder::id", || self.b.as_mut().unwrap().id()).map_err(|f| self.wrap(f))?;
+        self.log.push(format!("id() -> {}", id));
+        self.note_fresh(id, "id()")?;
+        Ok(id)
+    }
+
+    fn block_len(&self) -> Option<usize> {
+        let b = self.b.as_ref().unwrap();
+        match (b.selected_function(), b.selected_block()) {
+            (Some(f), Some(x)) => b
+                .module_ref()
+                .functions
+                .get(f)
+                .and_then(|f| f.blocks.get(x))
+                .map(|bl| bl.instructions.len()),
+            _ => None,
+        }
+    }
+
+    /// Calls a generated call site with planned arguments and checks the effect.
+    pub fn call(&mut self, cs: &mut Cs, mm: &'static MethodMeta) -> R {
+        self.env.block_len = self.block_len();
+        self.env.ip_end_only = self.env.conforming && closes_block(mm);
+        let env = self.env.clone();
+        let planned = {
+            let b = self.b.as_mut().unwrap();
+            let mut taken: Vec<u32> = vec![];
+            let mut fresh = || {
+                let v = b.id();
+                taken.push(v);
+                v
+            };
+            let p = plan_call(cs, mm, &env, &mut fresh);
+            (p, taken)
+        };
+        let (planned, taken) = planned;
+        for t in &taken {
+            self.log.push(format!("id() -> {}", t));
+            self.note_fresh(*t, "id()")?;
+        }
+        let Some(planned) = planned else { return Ok(()) };
+        self.call_with(mm, planned.args, planned.explicit_id)
+    }
+
+    pub fn call_with(&mut self, mm: &'static MethodMeta, args: Vec<ArgVal>, explicit_id: Option<u32>) -> R {
+        let what = render_args(mm, &args);
+        let (pre_f, pre_b) = self.selection();
+        let callf = mm.mi.call.expect("callable method");
+        let mut a = Args::new(args.clone());
+        let out = no_panic(&format!("Builder::{}", mm.mi.name), || callf(self.b.as_mut().unwrap(), &mut a)).map_err(|f| {
+            let mut f = f;
+            f.msg = format!("{} (call: {})", f.msg, what);
+            self.wrap(f)
+        })?;
+        self.ncalls += 1;
+        self.methods_called.push(mm.mi.name);
+        self.log.push(format!(
+            "{} [sel {:?}/{:?}] -> {}",
+            what,
+            pre_f,
+            pre_b,
+            match (&out.err, out.id) {
+                (Some(e), _) => format!("Err({})", e),
+                (None, Some(i)) => format!("{}", i),
+                _ => "()".into(),
+            }
+        ));
+        self.check_selection(&what)?;
+        let (post_f, post_b) = self.selection();
+        let has_rid = mm.kind == MKind::Type || mm.gi.map(|g| g.operands.iter().any(|(k, _)| *k == K::IdResult)).unwrap_or(false);
+        // expected success
+        let must_fail: Option<&str> = match mm.kind {
+            MKind::BeginFunction => pre_f.map(|_| "a function is open"),
+            MKind::BeginBlock => {
+                if pre_f.is_none() {
+                    Some("no function is open")
+                } else if pre_b.is_some() {
+                    Some("a block is open")
+                } else {
+                    None
+                }
+            }
+            MKind::BlockInst | MKind::BlockInsert | MKind::Terminator | MKind::TerminatorInsert => {
+                if pre_b.is_none() {
+                    Some("no block is selected")
+                } else {
+                    None
+                }
+            }
+            MKind::FunctionParameter | MKind::EndFunction => {
+                if pre_f.is_none() {
+                    Some("no function is open")
+                } else {
+                    None
+                }
+            }
+            _ => None,
+        };
+        if let Some(why) = must_fail {
+            if out.ok {
+                return Err(self.wrap(fail(
+                    "structure-enforced",
+                    format!("{:?}:accepted", mm.kind),
+                    format!("{} succeeded although {}", what, why),
+                )));
+            }
+            self.errors_seen.push(out.err.clone().unwrap_or_default());
+            if has_rid && explicit_id.is_none() {
+                self.slack += 1;
+                self.failed_reserving += 1;
+            }
+            // a failed call changes nothing
+            if (post_f, post_b) != (pre_f, pre_b) {
+                return Err(self.wrap(fail(
+                    "failed-call-selection",
+                    mm.mi.name.to_string(),
+                    format!("{} failed but changed the selection {:?}/{:?} -> {:?}/{:?}", what, pre_f, pre_b, post_f, post_b),
+                )));
+            }
+            return self.compare_module(&what).map_err(|mut f| {
+                f.clause = "failed-call-changed-module".into();
+                f
+            });
+        }
+        if !out.ok {
+            return Err(self.wrap(fail(
+                "structure-enforced",
+                format!("{:?}:rejected:{}", mm.kind, out.err.clone().unwrap_or_default()),
+                format!("{} failed with {:?} although the structure allows it (selection {:?}/{:?})", what, out.err, pre_f, pre_b),
+            )));
+        }
+        // result id
+        let rid = if has_rid {
+            match (explicit_id, out.id) {
+                (Some(e), Some(r)) => {
+                    if e != r {
+                        return Err(self.wrap(fail("explicit-id", mm.mi.name.to_string(), format!("{} returned {} for explicit id {}", what, r, e))));
+                    }
+                    Some(e)
+                }
+                (None, Some(r)) => Some(r),
+                (e, None) => e,
+            }
+        } else {
+            None
+        };
+        let Some(mut exp) = expected_inst(mm, &args, rid) else {
+            return Err(fail("harness", "expected_inst", format!("no expectation for {}", what)));
+        };
+        // types: dedup
+        if mm.kind == MKind::Type {
+            if explicit_id.is_none() {
+                let existing: Vec<u32> = self
+                    .model
+                    .types_global_values
+                    .iter()
+                    .filter(|i| i.class.opcode == exp.class.opcode && i.operands == exp.operands)
+                    .filter_map(|i| i.result_id)
+                    .collect();
+                let r = out.id.unwrap_or(0);
+                if !existing.is_empty() {
+                    self.repeated_type_requests += 1;
+                    if !existing.contains(&r) {
+                        return Err(self.wrap(fail(
+                            "type-dedup",
+                            format!("{}:not-reused", exp.class.opname),
+                            format!("{} returned {} although identical declarations exist with ids {:?}", what, r, existing),
+                        )));
+                    }
+                    self.track_types(&exp, r);
+                    return self.compare_module(&what).map_err(|mut f| {
+                        f.clause = "type-dedup-changed-module".into();
+                        f
+                    });
+                }
+                self.note_fresh(r, &what)?;
+                exp.result_id = Some(r);
+                self.model.types_global_values.push(exp.clone());
+                self.track_types(&exp, r);
+                return self.compare_module(&what);
+            } else {
+                self.model.types_global_values.push(exp.clone());
+                self.track_types(&exp, explicit_id.unwrap());
+                return self.compare_module(&what);
+            }
+        }
+        // fresh id discipline for implicit results
+        if has_rid && explicit_id.is_none() {
+            if let Some(r) = out.id {
+                self.note_fresh(r, &what)?;
+            }
+        }
+        // effect on the module
+        let ip = args.iter().find_map(|a| match a {
+            ArgVal::InsertPoint(ip) => Some(*ip),
+            _ => None,
+        });
+        match mm.kind {
+            MKind::BeginFunction => {
+                let mut f = dr::Function::new();
+                f.def = Some(exp);
+                self.model.functions.push(f);
+                let want = Some(self.model.functions.len() - 1);
+                if post_f != want || post_b.is_some() {
+                    return Err(self.wrap(fail("selection-after", "begin_function", format!("after {} the selection is {:?}/{:?}, expected {:?}/None", what, post_f, post_b, want))));
+                }
+            }
+            MKind::EndFunction => {
+                self.model.functions[pre_f.unwrap()].end = Some(exp);
+                if post_f.is_some() || post_b.is_some() {
+                    return Err(self.wrap(fail("selection-after", "end_function", format!("after {} the selection is {:?}/{:?}: ending a function must close it", what, post_f, post_b))));
+                }
+            }
+            MKind::BeginBlock => {
+                let f = pre_f.unwrap();
+                let mut b = dr::Block::new();
+                b.label = Some(exp);
+                self.model.functions[f].blocks.push(b);
+                let want = Some(self.model.functions[f].blocks.len() - 1);
+                if post_f != pre_f || post_b != want {
+                    return Err(self.wrap(fail("selection-after", "begin_block", format!("after {} the selection is {:?}/{:?}, expected {:?}/{:?}", what, post_f, post_b, pre_f, want))));
+                }
+            }
+            MKind::FunctionParameter => {
+                self.model.functions[pre_f.unwrap()].parameters.push(exp);
+            }
+            MKind::BlockInst | MKind::BlockInsert | MKind::Terminator | MKind::TerminatorInsert => {
+                let (f, bl) = (pre_f.unwrap(), pre_b.unwrap());
+                let list = &mut self.model.functions[f].blocks[bl].instructions;
+                let at = ip.map(|i| i.index(list.len())).unwrap_or(list.len());
+                list.insert(at, exp.clone());
+                let closes = closes_block(mm);
+                let closed = post_b.is_none();
+                if closes != closed || post_f != pre_f {
+                    return Err(self.wrap(fail(
+                        "terminator-closes-block",
+                        format!("{}:{}", exp.class.opname, if closed { "closed" } else { "left-open" }),
+                        format!(
+                            "Op{} {} a block terminator, but after {} the selection is {:?}/{:?}",
+                            exp.class.opname,
+                            if closes { "is" } else { "is not" },
+                            what,
+                            post_f,
+                            post_b
+                        ),
+                    )));
+                }
+            }
+            MKind::BlockOrGlobal => match (pre_f, pre_b) {
+                (Some(f), Some(bl)) => self.model.functions[f].blocks[bl].instructions.push(exp.clone()),
+                _ => self.model.types_global_values.push(exp.clone()),
+            },
+            MKind::ModuleLevel => {
+                let m = &mut self.model;
+                match layout(exp.class.opname) {
+                    Layout::Capability => m.capabilities.push(exp.clone()),
+                    Layout::Extension => m.extensions.push(exp.clone()),
+                    Layout::ExtInstImport => m.ext_inst_imports.push(exp.clone()),
+                    Layout::MemoryModel => m.memory_model = Some(exp.clone()),
+                    Layout::EntryPoint => m.entry_points.push(exp.clone()),
+                    Layout::ExecutionMode => m.execution_modes.push(exp.clone()),
+                    Layout::DebugStringSource => m.debug_string_source.push(exp.clone()),
+                    Layout::DebugName => m.debug_names.push(exp.clone()),
+                    Layout::ModuleProcessed => m.debug_module_processed.push(exp.clone()),
+                    Layout::Annotation => m.annotations.push(exp.clone()),
+                    Layout::TypeConst => m.types_global_values.push(exp.clone()),
+                    other => {
+                        return Err(fail("harness", "module-level-layout", format!("{} has layout {:?}", exp.class.opname, other)));
+                    }
+                }
+                if let Some(r) = exp.result_id {
+                    self.track_types(&exp, r);
+                }
+            }
+            MKind::Type | MKind::Other => {}
+        }
+        if !matches!(mm.kind, MKind::BeginFunction | MKind::EndFunction | MKind::BeginBlock | MKind::BlockInst | MKind::BlockInsert | MKind::Terminator | MKind::TerminatorInsert)
+            && (post_f, post_b) != (pre_f, pre_b)
+        {
+            return Err(self.wrap(fail("selection-after", mm.mi.name.to_string(), format!("{} changed the selection {:?}/{:?} -> {:?}/{:?}", what, pre_f, pre_b, post_f, post_b))));
+        }
+        self.compare_module(&what)
+    }
+
+    /// remember int/float type declarations and wide constants for later typed literals
+    fn track_types(&mut self, inst: &dr::Instruction, id: u32) {
+        match inst.class.opname {
+            "TypeInt" | "TypeFloat" => {
+                if let Some(dr::Operand::LiteralBit32(w)) = inst.operands.first() {
+                    let words = match (inst.class.opname, *w) {
+                        ("TypeInt", 8 | 16 | 32) | ("TypeFloat", 16 | 32) => 1,
+                        (_, 64) => 2,
+                        _ => 0,
+                    };
+                    if words > 0 && !self.env.lit_types.iter().any(|t| t.0 == id) {
+                        self.env.lit_types.push((id, words));
+                    }
+                }
+            }
+            "Constant" | "SpecConstant" => {
+                if let Some(t) = inst.result_type {
+                    if self.env.lit_types.iter().any(|x| x.0 == t && x.1 == 2) {
+                        self.env.wide_values.push(id);
+                    }
+                }
+            }
+            _ => {}
+        }
+    }
+
+    pub fn select_function(&mut self, idx: Option<usize>) -> R {
+        let what = format!("select_function({:?})", idx);
+        let (pre_f, pre_b) = self.selection();
+        let nf = self.b.as_ref().unwrap().module_ref().functions.len();
+        let r = no_panic("Builder::select_function", || self.b.as_mut().unwrap().select_function(idx)).map_err(|f| self.wrap(f))?;
+        self.selection_calls += 1;
+        self.log.push(format!("{} [sel {:?}/{:?}] -> {:?}", what, pre_f, pre_b, r.as_ref().map_err(err_name)));
+        self.check_selection(&what)?;
+        let (post_f, post_b) = self.selection();
+        match idx {
+            Some(i) if i >= nf => {
+                if r.is_ok() {
+                    return Err(self.wrap(fail("select-out-of-range", "select_function:accepted", format!("{} succeeded with {} functions", what, nf))));
+                }
+                self.errors_seen.push(err_name(r.as_ref().err().unwrap()));
+                if (post_f, post_b) != (pre_f, pre_b) {
+                    return Err(self.wrap(fail("failed-call-selection", "select_function", format!("{} failed but changed the selection", what))));
+                }
+            }
+            Some(i) => {
+                if r.is_err() || post_f != Some(i) {
+                    return Err(self.wrap(fail("select-in-range", "select_function", format!("{} -> {:?}, selection {:?}/{:?}", what, r.as_ref().map_err(err_name), post_f, post_b))));
+                }
+            }
+            None => {
+                if r.is_err() || post_f.is_some() || post_b.is_some() {
+                    return Err(self.wrap(fail("select-none", "select_function", format!("{} left selection {:?}/{:?}", what, post_f, post_b))));
+                }
+            }
+        }
+        self.compare_module(&what)
+    }
+
+    pub fn select_block(&mut self, idx: Option<usize>) -> R {
+        let what = format!("select_block({:?})", idx);
+        let (pre_f, pre_b) = self.selection();
+        let nb = pre_f.map(|f| self.b.as_ref().unwrap().module_ref().functions[f].blocks.len());
+        let r = no_panic("Builder::select_block", || self.b.as_mut().unwrap().select_block(idx)).map_err(|f| self.wrap(f))?;
+        self.selection_calls += 1;
+        self.log.push(format!("{} [sel {:?}/{:?}] -> {:?}", what, pre_f, pre_b, r.as_ref().map_err(err_name)));
+        self.check_selection(&what)?;
+        let (post_f, post_b) = self.selection();
+        match idx {
+            Some(j) => {
+                let in_range = nb.map(|n| j < n).unwrap_or(false);
+                if in_range {
+                    if r.is_err() || post_b != Some(j) || post_f != pre_f {
+                        return Err(self.wrap(fail("select-in-range", "select_block", format!("{} -> {:?}, selection {:?}/{:?}", what, r.as_ref().map_err(err_name), post_f, post_b))));
+                    }
+                } else {
+                    if r.is_ok() {
+                        return Err(self.wrap(fail("select-out-of-range", "select_block:accepted", format!("{} succeeded with {:?} blocks", what, nb))));
+                    }
+                    self.errors_seen.push(err_name(r.as_ref().err().unwrap()));
+                    if (post_f, post_b) != (pre_f, pre_b) {
+                        return Err(self.wrap(fail("failed-call-selection", "select_block", format!("{} failed but changed the selection", what))));
+                    }
+                }
+            }
+            None => {
+                if r.is_err() || post_b.is_some() || post_f != pre_f {
+                    return Err(self.wrap(fail("select-none", "select_block", format!("{} left selection {:?}/{:?}", what, post_f, post_b))));
+                }
+            }
+        }
+        self.compare_module(&what)
+    }
+
+    pub fn pop_instruction(&mut self) -> R {
+        let what = "pop_instruction()".to_string();
+        let (pre_f, pre_b) = self.selection();
+        let r = no_panic("Builder::pop_instruction", || self.b.as_mut().unwrap().pop_instruction()).map_err(|f| self.wrap(f))?;
+        self.log.push(format!("{} [sel {:?}/{:?}] -> {:?}", what, pre_f, pre_b, r.as_ref().map(show_inst).map_err(err_name)));
+        self.check_selection(&what)?;
+        let post = self.selection();
+        if post != (pre_f, pre_b) {
+            return Err(self.wrap(fail("selection-after", "pop_instruction", "pop_instruction changed the selection".to_string())));
+        }
+        match (pre_f, pre_b) {
+            (Some(f), Some(bl)) => {
+                let last = self.model.functions[f].blocks[bl].instructions.pop();
+                match (last, r) {
+                    (Some(l), Ok(got)) => {
+                        if l != got {
+                            return Err(self.wrap(fail("pop-value", "pop_instruction", format!("popped {} but the last instruction is {}", show_inst(&got), show_inst(&l)))));
+                        }
+                    }
+                    (None, Err(e)) => self.errors_seen.push(err_name(&e)),
+                    (Some(l), Err(e)) => {
+                        self.model.functions[f].blocks[bl].instructions.push(l);
+                        return Err(self.wrap(fail("structure-enforced", "pop_instruction:rejected", format!("pop_instruction failed with {} on a non-empty block", err_name(&e)))));
+                    }
+                    (None, Ok(got)) => {
+                        return Err(self.wrap(fail("structure-enforced", "pop_instruction:accepted", format!("pop_instruction returned {} from an empty block", show_inst(&got)))));
+                    }
+                }
+            }
+            _ => {
+                if let Ok(got) = r {
+                    return Err(self.wrap(fail("structure-enforced", "pop_instruction:accepted", format!("pop_instruction returned {} with no block selected", show_inst(&got)))));
+                }
+                self.errors_seen.push("DetachedInstruction".into());
+            }
+        }
+        self.compare_module(&what)
+    }
+
+    pub fn set_version(&mut self, major: u8, minor: u8) -> R {
+        no_panic("Builder::set_version", || self.b.as_mut().unwrap().set_version(major, minor)).map_err(|f| self.wrap(f))?;
+        self.version = Some((major, minor));
+        self.log.push(format!("set_version({}, {})", major, minor));
+        self.compare_module("set_version")
+    }
+
+    /// Ends the history: probes the next id, takes the module, checks the bound.
+    pub fn finish(mut self) -> Result<(dr::Module, Interp), Fail> {
+        let probe = self.alloc_id()?;
+        let b = self.b.take().unwrap();
+        let m = no_panic("Builder::module", || b.module()).map_err(|f| self.wrap(f))?;
+        let Some(h) = &m.header else {
+            return Err(self.wrap(fail("bound", "no-header", "module() returned a module without header".to_string())));
+        };
+        if h.bound != probe.wrapping_add(1) {
+            return Err(self.wrap(fail(
+                "bound",
+                "not-next-id",
+                format!("header bound {} but the next id that would have been allocated is {}", h.bound, probe.wrapping_add(1)),
+            )));
+        }
+        for id in &self.env.ids {
+            if *id >= h.bound {
+                return Err(self.wrap(fail("bound", "not-above-ids", format!("bound {} does not exceed allocated id {}", h.bound, id))));
+            }
+        }
+        let want_v = self.version.unwrap_or((1, 6));
+        if self.start == 1 && h.version() != want_v {
+            return Err(self.wrap(fail("version", "header", format!("header version {:?}, expected {:?}", h.version(), want_v))));
+        }
+        Ok((m, self))
+    }
+}
+
+impl Default for Interp {
+    fn default() -> Self {
+        Self::new()
+    }
+}
+
+// ---------------------------------------------------------------------------
+// method pools
+
+pub struct Pools {
+    pub block: Vec<&'static MethodMeta>,
+    pub block_append: Vec<&'static MethodMeta>,
+    pub term: Vec<&'static MethodMeta>,
+    pub term_append: Vec<&'static MethodMeta>,
+    pub module_level: Vec<&'static MethodMeta>,
+    pub types: Vec<&'static MethodMeta>,
+    pub block_or_global: Vec<&'static MethodMeta>,
+    pub emitting: Vec<&'static MethodMeta>,
+}
+
+pub fn pools() -> &'static Pools {
+    static P: std::sync::OnceLock<Pools> = std::sync::OnceLock::new();
+    P.get_or_init(|| {
+        let ms = methods();
+        let sel = |f: &dyn Fn(&MethodMeta) -> bool| -> Vec<&'static MethodMeta> { ms.iter().filter(|m| f(m)).collect() };
+        let is_block = |m: &MethodMeta| matches!(m.kind, MKind::BlockInst | MKind::BlockInsert | MKind::Terminator | MKind::TerminatorInsert);
+        Pools {
+            block: sel(&|m| is_block(m) && !closes_block(m)),
+            block_append: sel(&|m| matches!(m.kind, MKind::BlockInst | MKind::Terminator) && !closes_block(m)),
+            term: sel(&|m| is_block(m) && closes_block(m)),
+            term_append: sel(&|m| matches!(m.kind, MKind::BlockInst | MKind::Terminator) && closes_block(m)),
+            module_level: sel(&|m| m.kind == MKind::ModuleLevel),
+            types: sel(&|m| m.kind == MKind::Type),
+            block_or_global: sel(&|m| m.kind == MKind::BlockOrGlobal),
+            emitting: sel(&|m| m.kind != MKind::Other),
+        }
+    })
+}
+
+fn pick<'a>(cs: &mut Cs, v: &'a [&'static MethodMeta]) -> &'static MethodMeta {
+    v[cs.below(v.len())]
+}
+
+// ---------------------------------------------------------------------------
+// C12: arbitrary histories
+
+fn sub_c12_histories(input: &[u8], st: &mut Stats) -> R {
+    let mut cs = Cs::new(input);
+    let p = pools();
+    let mut it = Interp::new();
+    let n = cs.below(61);
+    for _ in 0..n {
+        match cs.below(32) {
+            0..=3 => it.call(&mut cs, method("begin_function"))?,
+            4..=6 => it.call(&mut cs, method("end_function"))?,
+            7..=10 => it.call(&mut cs, method("begin_block"))?,
+            11..=13 => { let mm = pick(&mut cs, &p.term); it.call(&mut cs, mm)? },
+            14..=19 => { let mm = pick(&mut cs, &p.block); it.call(&mut cs, mm)? },
+            20 => it.call(&mut cs, method("function_parameter"))?,
+            21 | 22 => { let mm = pick(&mut cs, &p.module_level); it.call(&mut cs, mm)? },
+            23 => { let mm = pick(&mut cs, &p.types); it.call(&mut cs, mm)? },
+            24 => { let mm = pick(&mut cs, &p.block_or_global); it.call(&mut cs, mm)? },
+            25 | 26 => {
+                let nf = it.b.as_ref().unwrap().module_ref().functions.len();
+                let idx = if cs.below(4) == 0 { None } else { Some(cs.below(nf + 2)) };
+                it.select_function(idx)?
+            }
+            27 | 28 => {
+                let nb = it
+                    .selection()
+                    .0
+                    .map(|f| it.b.as_ref().unwrap().module_ref().functions[f].blocks.len())
+                    .unwrap_or(0);
+                let idx = if cs.below(4) == 0 { None } else { Some(cs.below(nb + 2)) };
+                it.select_block(idx)?
+            }
+            29 | 30 => it.pop_instruction()?,
+            _ => {
+                it.alloc_id()?;
+            }
+        }
+    }
+    let nfun = it.b.as_ref().unwrap().module_ref().functions.len();
+    for e in &it.errors_seen {
+        st.count(&format!("error_{}", e));
+    }
+    if it.selection_calls > 0 {
+        st.count("histories_with_selection_call");
+    }
+    if (it.selection_calls > 0 || !it.errors_seen.is_empty()) && nfun >= 2 {
+        st.nontrivial(hash_str(&it.render()));
+    }
+    st.add("builder_calls", it.ncalls as u64);
+    st.sample(|| it.render());
+    Ok(())
+}
+
+/// Hand-minimised histories (plain regression checks)
+fn sub_c12_fixed(input: &[u8], st: &mut Stats) -> R {
+    let k = idx(input);
+    let empty = [0u8; 64];
+    let mut cs = Cs::new(&empty);
+    let mut it = Interp::new();
+    match k {
+        0 => {
+            // D10: end_function with an open block, then a new function and an instruction
+            it.call(&mut cs, method("begin_function"))?;
+            it.call(&mut cs, method("begin_block"))?;
+            it.call(&mut cs, method("end_function"))?;
+            it.call(&mut cs, method("begin_function"))?;
+            it.call(&mut cs, method("nop"))?;
+        }
+        1 => {
+            // D10: select_function(Some) with a stale block index
+            it.call(&mut cs, method("begin_function"))?;
+            it.call(&mut cs, method("begin_block"))?;
+            it.call(&mut cs, method("ret"))?;
+            it.call(&mut cs, method("begin_block"))?;
+            it.call(&mut cs, method("end_function"))?;
+            it.call(&mut cs, method("begin_function"))?;
+            it.call(&mut cs, method("end_function"))?;
+            it.select_function(Some(1))?;
+            it.call(&mut cs, method("nop"))?;
+        }
+        2 => {
+            it.call(&mut cs, method("begin_function"))?;
+            it.call(&mut cs, method("begin_block"))?;
+            it.call(&mut cs, method("ret"))?;
+            it.call(&mut cs, method("end_function"))?;
+            it.select_function(Some(0))?;
+            it.select_block(Some(0))?;
+            it.pop_instruction()?;
+            it.pop_instruction()?;
+            it.select_block(Some(1))?;
+            it.select_function(Some(7))?;
+        }
+        _ => return Ok(()),
+    }
+    st.nontrivial(hash_str(&it.render()));
+    Ok(())
+}
+
+pub const C12_SUBS: &[Sub] = &[
+    Sub { name: "fixed-histories", f: sub_c12_fixed },
+    Sub { name: "histories", f: sub_c12_histories },
+];
+
+pub fn c12_run(ctx: &Ctx) {
+    run_regress(ctx, C12_SUBS);
+    drive_enum(ctx, &C12_SUBS[0], 3);
+    drive_random(ctx, &C12_SUBS[1], ctx.n(30_000, 1_500_000), 1500);
+}
+
+pub fn c12_finish(ctx: &Ctx) -> i32 {
+    crate::engine::finish(
+        ctx,
+        Finish {
+            rule: "cases: call histories of 0-60 calls over begin/end function, begin block, every terminator method, every block-instruction method (append and insert_* with offsets within the selected block), function_parameter, module-level and type methods, variable/undef/line/no_line, select_function/select_block with in- and out-of-range indices, pop_instruction, id(); arguments planned from the grammar. Oracle (model R4): catch_unwind around every call; selection observed before/after every call and checked against the validity invariant; success/failure of each call decided by the observed pre-state as the statement says; after every call a full structural comparison of module_ref() with the model (Err => unchanged, Ok => exactly the modelled insertion/removal). non-trivial = history with a selection call or an error return and >= 2 functions; distinct = hash of the rendered history.",
+            assumptions: vec!["InsertPoint offsets beyond the selected block's length are outside the stated precondition and never generated".into()],
+            trusted_base: vec!["builder model R4".into(), "generated call sites (build.rs, syn)".into(), "golden grammar".into()],
+        },
+    )
+}
+
+// ---------------------------------------------------------------------------
+// C13: id discipline and type dedup
+
+fn sub_c13_histories(input: &[u8], st: &mut Stats) -> R {
+    let mut cs = Cs::new(input);
+    let p = pools();
+    let mut it = match cs.below(4) {
+        0 => {
+            let bound = match cs.below(5) {
+                0 => 0,
+                1 => 1,
+                2 => u32::MAX - 1000 - cs.below(1000) as u32,
+                3 => 0x8000_0000,
+                _ => cs.u32() % (u32::MAX - 2000),
+            };
+            Interp::from_bound(bound)?
+        }
+        _ => Interp::new(),
+    };
+    it.env.small = cs.below(3) != 0;
+    let n = cs.below(50);
+    for _ in 0..n {
+        match cs.below(24) {
+            0..=8 => { let mm = pick(&mut cs, &p.types); it.call(&mut cs, mm)? },
+            9 => {
+                // a few frequent simple types so that repeats are common
+                let names = ["type_void", "type_bool", "type_int", "type_float", "type_vector", "type_pointer", "type_int_id", "type_void_id", "type_pointer", "type_function"];
+                { let mm = method(names[cs.below(names.len())]); it.call(&mut cs, mm)? }
+            }
+            10 | 11 => {
+                it.alloc_id()?;
+            }
+            12 | 13 => {
+                let names = ["constant_bit32", "constant_true", "constant_null", "constant_composite", "spec_constant_bit32", "constant_bit64"];
+                { let mm = method(names[cs.below(names.len())]); it.call(&mut cs, mm)? }
+            }
+            14 => { let mm = pick(&mut cs, &p.module_level); it.call(&mut cs, mm)? },
+            15 => it.call(&mut cs, method("begin_function"))?,
+            16 => it.call(&mut cs, method("begin_block"))?,
+            17 | 18 => { let mm = pick(&mut cs, &p.block); it.call(&mut cs, mm)? },
+            19 => { let mm = pick(&mut cs, &p.term); it.call(&mut cs, mm)? },
+            20 => it.call(&mut cs, method("end_function"))?,
+            21 => it.call(&mut cs, method("function_parameter"))?,
+            22 => { let mm = pick(&mut cs, &p.block_or_global); it.call(&mut cs, mm)? },
+            _ => it.call(&mut cs, method("type_forward_pointer"))?,
+        }
+    }
+    let (m, it) = it.finish()?;
+    // consequence: all-implicit type declarations are pairwise different
+    let _ = m;
+    st.add("repeated_implicit_type_requests", it.repeated_type_requests as u64);
+    st.add("failed_calls_reserving_an_id", it.failed_reserving as u64);
+    if it.start != 1 {
+        st.count("continued_from_existing_module");
+    }
+    if it.repeated_type_requests > 0 && it.failed_reserving > 0 {
+        st.nontrivial(hash_str(&it.render()));
+    }
+    for n in &it.methods_called {
+        if n.starts_with("type_") {
+            st.set_insert("type_methods", *n);
+        }
+    }
+    st.sample(|| it.render());
+    Ok(())
+}
+
+/// every generated type method: twice implicitly (same arguments), once explicitly
+fn sub_c13_type_sweep(input: &[u8], st: &mut Stats) -> R {
+    let i = idx(input) as usize;
+    let p = pools();
+    let Some(mm) = p.types.get(i).copied() else { return Ok(()) };
+    let stream = crate::sweep::stream_for(i as u64, 256);
+    let mut cs = Cs::new(&stream);
+    let mut it = Interp::new();
+    for _ in 0..4 {
+        it.alloc_id()?;
+    }
+    let env = it.env.clone();
+    let has_id_param = mm.mi.params.iter().any(|p| p.0 == "result_id");
+    // plan once, replay the same arguments
+    let mut none = || -> u32 { panic!("harness: type sweep needs no fresh id") };
+    let planned = {
+        let mut tries = 0;
+        loop {
+            let mut c2 = Cs::new(&stream[tries..]);
+            let r = std::panic::catch_unwind(std::panic::AssertUnwindSafe(|| plan_call(&mut c2, mm, &env, &mut none)));
+            match r {
+                Ok(Some(p)) if p.explicit_id.is_none() => break Some(p),
+                _ => {
+                    tries += 1;
+                    if tries > 40 {
+                        break None;
+                    }
+                }
+            }
+        }
+    };
+    let _ = &mut cs;
+    let Some(planned) = planned else {
+        st.count("type_sweep_skipped");
+        return Ok(());
+    };
+    it.call_with(mm, planned.args.clone(), None)?;
+    it.call_with(mm, planned.args.clone(), None)?;
+    if has_id_param {
+        let e = it.alloc_id()?;
+        let mut args = planned.args.clone();
+        for (a, pinfo) in args.iter_mut().zip(mm.mi.params) {
+            if pinfo.0 == "result_id" {
+                *a = ArgVal::OptWord(Some(e));
+            }
+        }
+        it.call_with(mm, args, Some(e))?;
+        it.call_with(mm, planned.args.clone(), None)?;
+    }
+    let ntypes = it.model.types_global_values.len();
+    let want = if has_id_param { 2 } else { 1 };
+    if ntypes != want {
+        return Err(Fail::new("type-dedup", format!("{}:count", mm.mi.name), format!("{} declarations after the sweep, expected {}", ntypes, want)).with_decoded(it.render()));
+    }
+    it.finish()?;
+    st.set_insert("type_methods", mm.mi.name);
+    st.nontrivial(hash_str(mm.mi.name));
+    Ok(())
+}
+
+pub const C13_SUBS: &[Sub] = &[
+    Sub { name: "type-sweep", f: sub_c13_type_sweep },
+    Sub { name: "histories", f: sub_c13_histories },
+];
+
+pub fn c13_run(ctx: &Ctx) {
+    run_regress(ctx, C13_SUBS);
+    drive_enum(ctx, &C13_SUBS[0], pools().types.len() as u64);
+    drive_random(ctx, &C13_SUBS[1], ctx.n(30_000, 1_500_000), 1500);
+}
+
+pub fn c13_finish(ctx: &Ctx) -> i32 {
+    crate::engine::finish(
+        ctx,
+        Finish {
+            rule: "cases: (a) every generated type method (and type_pointer): requested twice implicitly with equal arguments, once with an explicit id, once more implicitly; (b) histories of 0-50 calls dominated by type requests over a small argument alphabet (so repeats are frequent) with and without explicit ids, interleaved with id(), constants, module-level and block-level calls that fail after reserving an id, optionally continuing from new_from_module with bound 0 / 1 / random / near u32::MAX. Oracle (model R4): fresh ids strictly increasing from 1 / the bound (a failed id-reserving call may skip one id), explicit ids returned unchanged; implicit type request returns the id of an earlier identical declaration and leaves the module unchanged, otherwise appends exactly one declaration with a fresh id; explicit request always appends; final probe = id(), module().header.bound == probe + 1 and > every allocated id. non-trivial = history with >= 1 repeated implicit type request and >= 1 failing id-reserving call (sweep: each type method); distinct = hash of the rendered history.",
+            assumptions: vec!["histories never exhaust 2^32 ids".into()],
+            trusted_base: vec!["builder model R4".into(), "generated call sites".into()],
+        },
+    )
+}
+
+// ---------------------------------------------------------------------------
+// C06: complete histories survive assemble-then-load
+
+fn complete_history(cs: &mut Cs, it: &mut Interp, st: &mut Stats, single: Option<&'static MethodMeta>) -> R {
+    let p = pools();
+    it.env.conforming = true;
+    if cs.below(3) == 0 {
+        let v = [(1u8, 0u8), (1, 3), (1, 5), (1, 6), (1, 2)][cs.below(5)];
+        it.set_version(v.0, v.1)?;
+    }
+    // ids "taken from the builder"
+    for _ in 0..6 {
+        it.alloc_id()?;
+    }
+    // some literal types first, so that typed constants exist
+    for name in ["type_int", "type_float", "type_int", "type_float"] {
+        if cs.bool() {
+            it.call(cs, method(name))?;
+        }
+    }
+    let module_level = |cs: &mut Cs, it: &mut Interp| -> R {
+        let mm = match cs.below(6) {
+            0 | 1 => pick(cs, &p.types),
+            2 => pick(cs, &p.block_or_global),
+            _ => pick(cs, &p.module_level),
+        };
+        it.call(cs, mm)
+    };
+    let nml = cs.below(6);
+    for _ in 0..nml {
+        module_level(cs, it)?;
+    }
+    if let Some(mm) = single {
+        // the method under sweep, in the smallest complete context
+        match mm.kind {
+            MKind::ModuleLevel | MKind::Type | MKind::BlockOrGlobal => it.call(cs, mm)?,
+            MKind::BeginFunction | MKind::EndFunction => {
+                it.call(cs, method("begin_function"))?;
+                it.call(cs, method("end_function"))?;
+            }
+            MKind::FunctionParameter => {
+                it.call(cs, method("begin_function"))?;
+                it.call(cs, mm)?;
+                it.call(cs, method("end_function"))?;
+            }
+            MKind::BeginBlock => {
+                it.call(cs, method("begin_function"))?;
+                it.call(cs, mm)?;
+                it.call(cs, method("ret"))?;
+                it.call(cs, method("end_function"))?;
+            }
+            _ => {
+                it.call(cs, method("begin_function"))?;
+                it.call(cs, method("begin_block"))?;
+                if mm.kind == MKind::BlockInsert || mm.kind == MKind::TerminatorInsert {
+                    it.call(cs, method("nop"))?;
+                    it.call(cs, method("nop"))?;
+                }
+                it.call(cs, mm)?;
+                if it.selection().1.is_some() {
+                    it.call(cs, method("ret"))?;
+                }
+                it.call(cs, method("end_function"))?;
+            }
+        }
+        return Ok(());
+    }
+    let nf = cs.below(4);
+    for _ in 0..nf {
+        it.call(cs, method("begin_function"))?;
+        for _ in 0..cs.below(3) {
+            it.call(cs, method("function_parameter"))?;
+        }
+        let nb = cs.below(4);
+        for _ in 0..nb {
+            it.call(cs, method("begin_block"))?;
+            let ni = cs.below(6);
+            for _ in 0..ni {
+                match cs.below(10) {
+                    0 => module_level(cs, it)?,
+                    1 => { let mm = pick(cs, &p.block_or_global); it.call(cs, mm)? },
+                    2 | 3 => { let mm = pick(cs, &p.block); it.call(cs, mm)? },
+                    _ => { let mm = pick(cs, &p.block_append); it.call(cs, mm)? },
+                }
+            }
+            // "each begun block ended by a terminator call"
+            { let mm = pick(cs, &p.term_append); it.call(cs, mm)? };
+            if it.selection().1.is_some() {
+                // the chosen method did not close the block although its opcode is a terminator:
+                // already reported by the interpreter; unreachable here
+                st.count("terminator_left_block_open");
+            }
+        }
+        it.call(cs, method("end_function"))?;
+        if cs.below(3) == 0 {
+            module_level(cs, it)?;
+        }
+    }
+    Ok(())
+}
+
+fn roundtrip(it: Interp, st: &mut Stats) -> R {
+    let (m, it) = it.finish()?;
+    let wrap = |f: Fail| f.with_decoded(it.render());
+    let words = no_panic("Module::assemble", || m.assemble()).map_err(wrap)?;
+    let bytes = crate::model::words_to_bytes(&words);
+    // self-check of the generator: the arguments were grammar-conforming
+    let rp = crate::model::ref_parse(&bytes);
+    if rp.end != crate::model::End::Clean {
+        st.count("skipped_arguments_not_conforming");
+        st.sample(|| format!("NON-CONFORMING (generator): {:?}\n{}", rp.end, it.render()));
+        return Ok(());
+    }
+    let loaded = load_words(&words).map_err(wrap)?;
+    let m2 = match loaded {
+        Ok(x) => x,
+        Err(e) => {
+            let opn = match &e {
+                rspirv::binary::ParseState::ConsumerError(b) => match b.downcast_ref::<dr::Error>() {
+                    Some(dr::Error::DetachedInstruction(Some(i))) => i.class.opname.to_string(),
+                    Some(o) => err_name(o),
+                    None => String::new(),
+                },
+                o => state_name(o),
+            };
+            return Err(wrap(Fail::new(
+                "built-module-not-loadable",
+                opn,
+                format!("the loader rejects the assembled Builder module: {}", e),
+            )));
+        }
+    };
+    if let Some(d) = module_diff(&m, &m2) {
+        // name the first differing instruction's opcode
+        let a: Vec<&dr::Instruction> = m.all_inst_iter().collect();
+        let b: Vec<&dr::Instruction> = m2.all_inst_iter().collect();
+        let opn = a
+            .iter()
+            .zip(&b)
+            .find(|(x, y)| x != y)
+            .map(|(x, _)| x.class.opname.to_string())
+            .unwrap_or_else(|| "count".into());
+        return Err(wrap(Fail::new("built-vs-loaded", opn, format!("loaded module differs from the built one: {}", d))));
+    }
+    for n in &it.methods_called {
+        st.set_insert("methods", *n);
+    }
+    let blocks: usize = m.functions.iter().map(|f| f.blocks.len()).sum();
+    if !m.functions.is_empty() && blocks >= 2 && it.ncalls >= 6 {
+        st.nontrivial(hash_words(&words));
+    }
+    st.add("builder_calls", it.ncalls as u64);
+    st.sample(|| it.render());
+    Ok(())
+}
+
+fn sub_c06_histories(input: &[u8], st: &mut Stats) -> R {
+    let mut cs = Cs::new(input);
+    let mut it = Interp::new();
+    complete_history(&mut cs, &mut it, st, None)?;
+    roundtrip(it, st)
+}
+
+/// every instruction-emitting method in a minimal complete history, distinct ids
+fn sub_c06_method_sweep(input: &[u8], st: &mut Stats) -> R {
+    let i = idx(input) as usize;
+    let p = pools();
+    let Some(mm) = p.emitting.get(i / 3).copied() else { return Ok(()) };
+    let stream = crate::sweep::stream_for(i as u64 ^ 0xb1d, 512);
+    let mut cs = Cs::new(&stream);
+    let mut it = Interp::new();
+    complete_history(&mut cs, &mut it, st, Some(mm))?;
+    if it.methods_called.contains(&mm.mi.name) {
+        st.set_insert("swept_methods", mm.mi.name);
+        st.nontrivial(hash_str(&format!("{}#{}", mm.mi.name, i % 3)));
+    } else {
+        st.count("sweep_method_not_planned");
+    }
+    roundtrip(it, st)
+}
+
+pub const C06_SUBS: &[Sub] = &[
+    Sub { name: "method-sweep", f: sub_c06_method_sweep },
+    Sub { name: "histories", f: sub_c06_histories },
+];
+
+pub fn c06_run(ctx: &Ctx) {
+    let ms = methods();
+    let uncovered: Vec<&str> = ms
+        .iter()
+        .filter(|m| m.kind == MKind::Other)
+        .map(|m| m.mi.name)
+        .collect();
+    ctx.note(format!(
+        "builder methods: {} total, {} instruction-emitting with generated call sites; not instruction-emitting / handled by hand: {:?}",
+        ms.len(),
+        pools().emitting.len(),
+        uncovered
+    ));
+    run_regress(ctx, C06_SUBS);
+    drive_enum(ctx, &C06_SUBS[0], pools().emitting.len() as u64 * 3);
+    drive_random(ctx, &C06_SUBS[1], ctx.n(20_000, 1_000_000), 2500);
+}
+
+pub fn c06_finish(ctx: &Ctx) -> i32 {
+    crate::engine::finish(
+        ctx,
+        Finish {
+            rule: "cases: (a) per-method sweep: every instruction-emitting Builder method (1153, call sites generated from the working tree by build.rs) x3 in the smallest complete history; (b) complete histories: optional set_version, ids from b.id(), int/float types, module-level/type/global calls, 0-3 functions x 0-3 blocks of block instructions (append and insert_*), each block ended by a terminator method, each function ended, module-level calls interleaved anywhere; arguments grammar-conforming (enumerant parameters via additional_params, optionals as trailing run, typed literals of the declared width). Oracle: per call, the emitted instruction (found where the model R4 places it) equals the method's opcode + arguments in grammar order; at the end load_words(module().assemble()) is Ok and field-wise equal to the built module; version = the one set (default 1.6); bound = next id > every id used. non-trivial = history with >= 1 function, >= 2 blocks, >= 6 calls (sweep: the swept method was called); distinct = hash of the assembled words.",
+            assumptions: vec![
+                "excluded: begin_block_no_label (label-less block cannot be expressed in a binary); insert_into_block / insert_types_global_values with caller-made instructions; spec_constant_op only with opcodes whose embedded operand list can be empty; execution_mode / execution_mode_id only with modes whose parameters fit the [u32] signature; with several parameterised masks in one call only the last may carry parameters (single additional_params argument)".into(),
+                "histories whose assembled words the reference parser R1 does not accept are generator errors and skipped (counted as skipped_arguments_not_conforming)".into(),
+            ],
+            trusted_base: vec!["builder model R4".into(), "generated call sites".into(), "golden grammar".into(), "reference parser R1".into()],
+        },
+    )
+}
+
+// ---------------------------------------------------------------------------
+// C16 (Builder clause): a block-level method ends the block iff its opcode is a terminator
+
+fn sub_c16_builder(input: &[u8], st: &mut Stats) -> R {
+    let i = idx(input) as usize;
+    let ms: Vec<&'static MethodMeta> = methods()
+        .iter()
+        .filter(|m| matches!(m.kind, MKind::BlockInst | MKind::BlockInsert | MKind::Terminator | MKind::TerminatorInsert))
+        .collect();
+    let Some(mm) = ms.get(i).copied() else { return Ok(()) };
+    let stream = crate::sweep::stream_for(i as u64 ^ 0xc16, 256);
+    let mut cs = Cs::new(&stream);
+    let mut b = Builder::new();
+    let ids: Vec<u32> = (0..6).map(|_| b.id()).collect();
+    b.begin_function(ids[0], None, spirv::FunctionControl::NONE, ids[1]).map_err(|e| Fail::new("harness", "begin_function", format!("{:?}", e)))?;
+    b.begin_block(None).map_err(|e| Fail::new("harness", "begin_block", format!("{:?}", e)))?;
+    let env = Env {
+        ids,
+        block_len: Some(0),
+        conforming: true,
+        ..Default::default()
+    };
+    let mut fresh = || b.id();
+    let Some(planned) = plan_call(&mut cs, mm, &env, &mut fresh) else {
+        st.count("not_planned");
+        return Ok(());
+    };
+    let callf = mm.mi.call.unwrap();
+    let mut a = Args::new(planned.args.clone());
+    let out = no_panic(&format!("Builder::{}", mm.mi.name), || callf(&mut b, &mut a))?;
+    let opname = mm.gi.unwrap().opname.as_str();
+    let op = spirv::Op::from_u32(mm.gi.unwrap().opcode).unwrap();
+    let pred = rspirv::grammar::reflect::is_block_terminator(op);
+    let closed = b.selected_block().is_none();
+    if !out.ok {
+        return Err(Fail::new("builder-call-failed", mm.mi.name.to_string(), format!("{} failed with a block open: {:?}", render_args(mm, &planned.args), out.err)));
+    }
+    if closed != pred {
+        return Err(Fail::new(
+            "builder-ends-block-iff-terminator",
+            format!("{}:{}", opname, if closed { "closed" } else { "left-open" }),
+            format!(
+                "Builder::{} {} the block but is_block_terminator(Op{}) = {}",
+                mm.mi.name,
+                if closed { "ended" } else { "did not end" },
+                opname,
+                pred
+            ),
+        ));
+    }
+    st.nontrivial(hash_str(mm.mi.name));
+    if closed {
+        st.set_insert("block_ending_methods", mm.mi.name);
+    }
+    Ok(())
+}
+
+pub const C16_SUBS: &[Sub] = &[Sub { name: "builder-ends-block", f: sub_c16_builder }];
+
+pub fn c16_run(ctx: &Ctx) {
+    let n = methods()
+        .iter()
+        .filter(|m| matches!(m.kind, MKind::BlockInst | MKind::BlockInsert | MKind::Terminator | MKind::TerminatorInsert))
+        .count();
+    drive_enum(ctx, &C16_SUBS[0], n as u64);
+}
+
+#[allow(dead_code)]
+fn _unused() {
+    let _ = golden();
+}
